@@ -105,6 +105,17 @@ func (w *c05world) disturb(d string, c c05cfg) {
 				_ = l.Server.Close()
 			}
 		}
+	case "hardRestartA", "hardRestartB":
+		// power cycle: the path dies silently (the peer keeps its end of the connection), the hub comes back at once
+		for _, l := range fakews.Links() {
+			if !l.Client.IsClosed() && !l.Server.IsClosed() {
+				l.Client.Blackhole()
+			}
+		}
+		w.disturb(strings.TrimPrefix(d, "hard"), c)
+		return
+	case "RestartA", "RestartB":
+		w.disturb("r"+d[1:], c)
 	case "restartA", "restartB":
 		old := a
 		if d == "restartB" {
@@ -365,6 +376,27 @@ func c05Scenarios(r *hx.Run) []hx.Scenario {
 		c := c05cfg{swap: swap, order: "together", reg: "before", dist: []string{"outage"}, narrow: true, quiet: 35 * time.Second}
 		out = append(out, hx.Scenario{Name: "c05:retry:" + c.name(), Body: c05Body(c), Bounds: simrt.Bounds{Preempt: 2, Fault: 0, Total: 2},
 			Cfg: simrt.Config{MaxSteps: 600000, BranchAfterMark: true, DelayBounding: true, BranchStartOnly: true, BranchOnly: []string{"eportMdnsEntries"}}})
+	}
+	// a hub is power cycled: the peer still holds the old connection when the new hub connects (a double connection
+	// whose old half is registered); two deviations among the accepting / dialling / closing goroutines
+	for _, swap := range []bool{false, true} {
+		for _, d := range []string{"hardRestartA", "hardRestartB"} {
+			// the peer notices the dead connection through its read deadline (60 s without a pong) at the latest
+			c := c05cfg{swap: swap, order: "together", reg: "before", dist: []string{d}, quiet: 120 * time.Second}
+			// the new connection of the hub with the higher SKI replaces the dead one at the peer: that is the case
+			// with a closing goroutine racing the registration (two deviations); the other case gets one
+			higherRestarts := (d == "hardRestartA") != swap
+			dd := 1
+			if higherRestarts {
+				dd = 2
+			}
+			if r.Thorough() {
+				dd++
+			}
+			c.narrow = true // branch only during the disturbance (restart and reconnection), not during the quiet period
+			out = append(out, hx.Scenario{Name: "c05:powercycle:" + c.name(), Body: c05Body(c), Bounds: simrt.Bounds{Preempt: dd, Fault: 0, Total: dd},
+				Cfg: simrt.Config{MaxSteps: 600000, BranchAfterMark: true, DelayBounding: true, BranchOnly: []string{"http.serve", "keepThisConnection"}}})
+		}
 	}
 	// a hub is shut down and replaced while the first connection is being set up: nothing of the old hub may survive
 	for _, swap := range []bool{false, true} {
